@@ -1,0 +1,76 @@
+//go:build verif
+
+package certmagic
+
+import (
+	"context"
+	"crypto/x509"
+
+	"github.com/mholt/acmez/v3/acme"
+)
+
+// Verification hooks (build tag "verif" only) for the ACME account logic: thin exported
+// wrappers around unexported functions and fields. No existing code is changed.
+
+// VerifAccountACMEDirectory runs newACMEClient (URL rule, test-CA substitution) and returns the
+// directory URL the client would contact.
+func VerifAccountACMEDirectory(iss *ACMEIssuer, useTestCA bool) (string, error) {
+	c, err := iss.newACMEClient(useTestCA)
+	if err != nil {
+		return "", err
+	}
+	return c.Directory, nil
+}
+
+// VerifAccountBasicACMEDirectory runs newBasicACMEClient and returns its directory URL.
+func VerifAccountBasicACMEDirectory(iss *ACMEIssuer) (string, error) {
+	c, err := iss.newBasicACMEClient()
+	if err != nil {
+		return "", err
+	}
+	return c.Directory, nil
+}
+
+// VerifAccountFetchDirectory builds the client like newACMEClient does and fetches the directory
+// (the first network contact every ACME operation makes).
+func VerifAccountFetchDirectory(ctx context.Context, iss *ACMEIssuer, useTestCA bool) error {
+	c, err := iss.newACMEClient(useTestCA)
+	if err != nil {
+		return err
+	}
+	_, err = c.GetDirectory(ctx)
+	return err
+}
+
+// VerifAccountNewACMEClientWithAccount runs newACMEClientWithAccount (non-interactive) and returns the
+// account it settled on and the directory in use.
+func VerifAccountNewACMEClientWithAccount(ctx context.Context, iss *ACMEIssuer, useTestCA bool) (acme.Account, string, error) {
+	c, err := iss.newACMEClientWithAccount(ctx, useTestCA, false)
+	if err != nil {
+		return acme.Account{}, "", err
+	}
+	return c.account, c.acmeClient.Directory, nil
+}
+
+// VerifAccountDoIssue exposes doIssue (one pass of Issue against the primary or the test CA).
+func VerifAccountDoIssue(ctx context.Context, iss *ACMEIssuer, csr *x509.CertificateRequest, attempts int) (*IssuedCertificate, bool, error) {
+	return iss.doIssue(ctx, csr, attempts)
+}
+
+// VerifAccountSetEmail sets the issuer's effective e-mail address the way PreCheck/setEmail leaves it,
+// without prompting and without touching the process-wide discovered address.
+func VerifAccountSetEmail(iss *ACMEIssuer, email string) {
+	iss.mu.Lock()
+	iss.email = email
+	iss.mu.Unlock()
+}
+
+// VerifAccountResetDiscoveredEmail clears the process-wide e-mail address remembered by setEmail.
+func VerifAccountResetDiscoveredEmail() {
+	discoveredEmailMu.Lock()
+	discoveredEmail = ""
+	discoveredEmailMu.Unlock()
+}
+
+// VerifAccountRegLockKey exposes accountRegLockKey.
+func VerifAccountRegLockKey(acct acme.Account) string { return accountRegLockKey(acct) }
